@@ -78,19 +78,11 @@ class Namespace(typing.Generic[T]):
     def _load_global(self, name: str) -> expr:
         # a global name is looked up in the module namespace first and in
         # the builtins after that, like LOAD_GLOBAL does
-        _globals = Call(func=Name(id="globals", ctx=Load()), args=[], keywords=[])
+        _globals = Call(func=ol_builtin("globals"), args=[], keywords=[])
         return IfExp(
             test=Compare(left=Constant(value=name), ops=[In()], comparators=[_globals]),
             body=Subscript(value=_globals, slice=Constant(value=name), ctx=Load()),
-            orelse=Attribute(
-                value=Call(
-                    func=Name(id="__import__", ctx=Load()),
-                    args=[Constant(value="builtins")],
-                    keywords=[],
-                ),
-                attr=name,
-                ctx=Load(),
-            ),
+            orelse=ol_builtin(name),
         )
 
 
@@ -196,7 +188,7 @@ class NamespaceFunction(Namespace[symtable.Function]):
             return Call(
                 func=Attribute(
                     value=Call(
-                        func=Name(id="globals", ctx=Load()), args=[], keywords=[]
+                        func=ol_builtin("globals"), args=[], keywords=[]
                     ),
                     attr="__setitem__",
                     ctx=Load(),
@@ -302,7 +294,7 @@ class NamespaceClass(Namespace[symtable.Class]):
             return Call(
                 func=Attribute(
                     value=Call(
-                        func=Name(id="globals", ctx=Load()), args=[], keywords=[]
+                        func=ol_builtin("globals"), args=[], keywords=[]
                     ),
                     attr="__setitem__",
                     ctx=Load(),
